@@ -422,3 +422,20 @@ def shared_mutable_defaults(P, R, rule, funcs, why):
                 R.check(not mutable, rule, f, c, 'per-key containers are distinct objects',
                         f'`{norm(c)}` gives every key the same container object: {why}', construct=f'{f.qualname}: {norm(c)[:60]}')
     return n
+
+
+def kernel_on_every_path(P, R, rule, f, is_kernel, what, why):
+    """No fast path around the computation: every return of f passes through a call of one of the kernels (is_kernel(FuncInfo)), except under a
+    guard that the receiver is empty (`len(self) == 0`)."""
+    def gate(c):
+        r = P.resolve_call(f, c)
+        return bool(r and r[0] == 'func' and is_kernel(r[1]))
+
+    def allow(ret):
+        q = ret
+        while getattr(q, '_parent', None) is not None and q._parent is not f.node:
+            q = q._parent
+            if isinstance(q, ast.If) and any(t in norm(q.test) for t in ('len(self) == 0', 'len(self) < 1', 'not len(self)', 'self.empty')):
+                return True
+        return False
+    return returns_pass_through(P, R, rule, f, gate, what, why, allow=allow)
